@@ -16,7 +16,7 @@ extern "C" void __lsan_disable(void) __attribute__((weak));
 
 using namespace qsx;
 
-namespace qsx { void register_all_properties(); }
+namespace qsx { void register_all_properties(); std::string transcript_run(const Case &c); }
 
 static double now_s() {
   struct timespec ts;
@@ -359,6 +359,25 @@ int main(int argc, char **argv) {
     std::string a = argv[i];
     if (a.rfind("--", 0) == 0 && i + 1 < argc) { opt[a.substr(2)] = argv[i + 1]; i++; }
     else pos.push_back(a);
+  }
+  if (mode == "transcript-one") {
+    // fresh-process re-execution of one history for the determinism oracle of C17: prints the transcript
+    if (pos.empty()) return usage();
+    bool ok = false;
+    std::string text = read_file(pos[0], &ok);
+    std::vector<uint32_t> tape;
+    Case c;
+    bool have_case = false;
+    if (!ok || !parse_replay(text, tape, c, have_case) || !have_case) return 2;
+    std::string sd = scratch_dir();
+    if (chdir(sd.c_str()) != 0) return 2;
+    sut_case_reset();
+    std::string T = qsx::transcript_run(c);
+    fwrite(T.data(), 1, T.size(), stdout);
+    fflush(stdout);
+    clean_dir(sd);
+    rmdir(sd.c_str());
+    _exit(0);
   }
   if (mode == "emit-corpus") {
     // seed corpus for the reader fuzzers: small valid files from the independent emitters (first byte =
